@@ -242,6 +242,14 @@ func (s *selectForUpdateExecutor) buildSelectPKSQL(stmt *ast.SelectStmt, meta *t
 		})
 	}
 
+	// the key query waits for a row lock the way the statement would: NOWAIT fails at once, WAIT n after n
+	// seconds. (SKIP LOCKED stays a plain FOR UPDATE: a key query that skips rows says nothing about the rows the
+	// statement itself returns a moment later, and each of those has to be checked with the coordinator.)
+	lockInfo := &ast.SelectLockInfo{LockType: ast.SelectLockForUpdate}
+	if li := stmt.LockInfo; li != nil && (li.LockType == ast.SelectLockForUpdateNoWait || li.LockType == ast.SelectLockForUpdateWaitN) {
+		lockInfo = &ast.SelectLockInfo{LockType: li.LockType, WaitSec: li.WaitSec}
+	}
+
 	selStmt := ast.SelectStmt{
 		SelectStmtOpts: &ast.SelectStmtOpts{},
 		From:           stmt.From,
@@ -250,9 +258,7 @@ func (s *selectForUpdateExecutor) buildSelectPKSQL(stmt *ast.SelectStmt, meta *t
 		OrderBy:        stmt.OrderBy,
 		Limit:          stmt.Limit,
 		TableHints:     stmt.TableHints,
-		LockInfo: &ast.SelectLockInfo{
-			LockType: ast.SelectLockForUpdate,
-		},
+		LockInfo:       lockInfo,
 	}
 
 	b := seatabytes.NewByteBuffer([]byte{})
